@@ -211,7 +211,10 @@ def t_edit_tags(E):
     E.prove("C08.Switch.edit.branches_with_different_retdiff_tags.retdiff_primal_is_new_retval",
             E.eq(E.call(INC + ":Diff.tree_primal", rd), E.method(new, "get_retval")))
     E.prove("C08.Switch.edit.branches_with_different_retdiff_tags.nochange_sound",
-            E.Implies(T.all_nochange(rd), E.eq(E.method(new, "get_retval"), E.method(old, "get_retval"))))
+            E.Implies(T.all_nochange(rd), E.eq(E.method(new, "get_retval"), E.method(old, "get_retval"))),
+            # (C13: what the switch reports about its return value must come from the branch that executed - a NoChange taken
+            # over from a branch that did not run makes every site downstream keep a stale value)
+            also=["C13"])
     E.refutable("switch.edit.heterogeneous_retdiff_tags", E.eq(E.method(new, "get_retval"), rv[0]))
 
 
